@@ -321,19 +321,30 @@ CLAIMED = {
         "6 (C05)",
     ),
     "C03": (
-        "Coq proof (payload builders of a core set of constructors vs the REGENERATED payload regexes through the verified regex matcher: finite sweeps lifted by lemma for indexes / log entries / OpenTherm ids / fragment headers, a structural proof for every setpoint word; refuted classes by witnesses) + whole-domain correspondence with the real constructors + oracle over all 45 constructors",
-        "11 theorems in coq/props/C03.v about coq/model/M_Command.v (= _check_idx, the six zone getters with a regex, get_mix_valve_params, "
+        "Coq proof (payload builders of a core set of constructors vs the REGENERATED payload regexes through the verified regex matcher: finite sweeps lifted by lemma for indexes / log entries / OpenTherm ids / fragment headers, symbolic-string matching with a soundness theorem for payloads with arbitrary data fields, builder-then-decoder equalities for the mode / time / configuration commands; refuted classes by witnesses) + whole-domain correspondence with the real constructors + oracle over all 45 constructors",
+        "20 theorems in coq/props/C03.v. Nine about coq/model/M_ModeCmd.v (= set_zone_mode, set_dhw_mode, set_system_mode, set_system_time, "
+        "set_zone_config with _normalise_mode / _normalise_until, AND the decoders parser_2349 / parser_1f41 / parser_2e04 / parser_313f / "
+        "parser_000a): for every zone 0..15, every mode argument, EVERY setpoint word, every valid end time (years 1..9999, leap days) and "
+        "every duration below FFFFFF, whatever set_zone_mode does not refuse is in the language of the regenerated W|2349 regex (symbolic "
+        "matching: one kernel computation per payload shape covers every hex data field, coq/lib/RegexSym.v, soundness proved) and the "
+        "decoder returns exactly the normalised mode, that word's temperature, the duration and the end time to the minute; the same for "
+        "set_system_mode (modes 00..07), set_system_time (to the second, DST flag) and set_zone_config (min/max on the 0.01 grid, three "
+        "flags); for set_dhw_mode the same EXCEPT three classes refuted by witnesses (countdown mode, temporary override without an end "
+        "time, a DHW index other than 00/01: built and then rejected by the library's own decoder -- known findings). Eleven about "
+        "coq/model/M_Command.v (= _check_idx, the six zone getters with a regex, get_mix_valve_params, "
         "set_zone_setpoint, get_system_log_entry, get_opentherm_data, get_schedule_fragment) against PAYLOAD_REGEXES and API_MAP regenerated "
         "from ramses.py / command.py: for every zone index 0..15 the getters' payload is in the language of the regex of the RQ|code they "
         "are registered under and the index reads back; every other index 0..255 is refused except the three domain ids (refuted: known "
         "finding); for every index and EVERY setpoint word set_zone_setpoint's payload is accepted for W|2309 and the word reads back "
         "(with C04_temp_encode_decode: the setpoint at wire resolution); whatever get_system_log_entry builds is one of the 64 entries and "
         "accepted; all 256 OpenTherm ids give an accepted RQ|3220 carrying the id; every fragment request not refused is accepted; "
-        "RQ|1030 has no regex at all (refuted). PARTIAL: 10 of 45 constructors are modelled; the others, the decoders' own value checks "
-        "beyond the regex, and 'decodes to the values passed in' for modes/datetimes/names are decided by the oracle: every constructor "
+        "RQ|1030 has no regex at all (refuted). PARTIAL: 15 of 45 constructors are modelled (5 of them together with their decoders); the others, "
+        "the decoders' own value checks beyond the regex for those, and 'decodes to the values passed in' for names / fan / bind commands are decided by the oracle: every constructor "
         "of CODE_API_MAP over argument grids (in and out of domain): verb|code as registered, Message._from_cmd accepts, decoded values = "
         "arguments at wire resolution. Tie: the models' payloads = the real constructors' over 256 indexes x 6 getters, 70 log indexes, "
-        "256 OpenTherm ids, 10 setpoints (incl. refusals).",
+        "256 OpenTherm ids, 10 setpoints (incl. refusals); ~5900 (thorough ~19000) argument combinations of the five mode/time/config constructors "
+        "(indexes incl. 16 and domain ids, modes None/0..5, setpoints, end times incl. 29 Feb and years 1/9999, durations 0..FFFFFE, flags): payload or "
+        "refusal, the real decoder's verdict (Message._from_cmd) and every decoded value vs the model.",
         "Trusted: Coq kernel, translator (regex ASTs, API map), harness. Modelled not verified: hex_from_temp via C04's theorem (setpoint "
         "k/100 -> word k mod 2^16).",
         "6 (C03)",
